@@ -1101,3 +1101,163 @@ Definition ess_md (l : list text) : list text := filter essential_md (unglue l).
 Definition norm_noreorder (o : opts) (ts : list tok) : list text :=
   let t := norm_core_items o ts in
   flatten (if o_merge_derives o then merge_derives t else t).
+
+(* ------------------------------------------------------------------ *)
+(* P3: the closed list of style normalisations as a relation on token trees.
+   A step rewrites the item sequence of ONE nesting level, given whole (pre ++ redex ++ post), because several
+   side conditions look at the neighbours or at the ends of the sequence.  c = where the sequence lives. *)
+Inductive sctx :=
+| CTop                      (* the file *)
+| CIn (d : delim)           (* the contents of a delimited group, as code *)
+| CMacro.                   (* the contents of the body of a macro_rules definition: arms matcher => body ; *)
+Definition sctx_of (ctx : option delim) : sctx :=
+  match ctx with None => CTop | Some d => CIn d end.
+Definition brace_ctx (c : sctx) : bool := match c with CIn DBrace => true | _ => false end.
+Definition lasto (l : list item) : option item := hd_error (rev l).
+(* the group that follows pre is the body of a macro_rules definition *)
+Definition macro_def_pos (pre : list item) : bool := macro_rules_head (rev pre).
+(* the group that follows pre is the argument of a macro call  name ! *)
+Definition macro_call_pos (pre : list item) : bool :=
+  match rev pre with b :: y :: _ => is_tok b s_bang && is_ident y | _ => false end.
+(* no top-level `|`, `;`, `=>` : a closure parameter list *)
+Definition closure_params (l : list item) : bool :=
+  negb (existsb (fun y => is_tok y s_pipe || is_tok y s_semi || is_tok y s_fatarrow) l).
+(* the where-clause state of trailing_seps after a prefix: (inside a where clause, angle depth) *)
+Definition wstep (st : bool * nat) (x : item) : bool * nat :=
+  let (in_where, angle) := st in
+  let w := is_tok x s_where in
+  let in_where1 := w || in_where in
+  let angle1 := if w then O else angle in
+  let angle2 := if in_where1 && is_tok x s_lt then S angle1 else angle1 in
+  let angle3 := if in_where1 && is_tok x s_gt && Nat.ltb 0 angle2 then pred angle2 else angle2 in
+  (if in_where1 && Nat.eqb angle3 0 && ends_where x then false else in_where1, angle3).
+Definition wstate (pre : list item) : bool * nat := fold_left wstep pre (false, O).
+Definition is_fatarrow (t : item) : bool := is_tok t s_fatarrow.
+
+Inductive Step (c : sctx) : list item -> list item -> Prop :=
+(* redundant semicolons: after a `;`, or first in a block *)
+| S_redundant_semi pre post :
+    is_tok_o (lasto pre) s_semi || (match pre with [] => brace_ctx c | _ :: _ => false end) = true ->
+    Step c (pre ++ Tok s_semi :: post) (pre ++ post)
+(* the `;` after a macro call / macro definition is optional: m!{..} and m!(..); *)
+| S_macro_semi pre g post :
+    macro_def_pos pre || macro_call_pos pre = true ->
+    Step c (pre ++ g :: Tok s_semi :: post) (pre ++ g :: post)
+(* `where` with no predicates *)
+| S_empty_where pre post :
+    match post with [] => true | y :: _ => ends_where y end = true ->
+    Step c (pre ++ Tok s_where :: post) (pre ++ post)
+(* empty bound list  T:  *)
+| S_empty_bounds pre post :
+    match lasto pre with Some p => is_ident p | None => false end = true ->
+    match post with [] => true | y :: _ => tok_in y [s_comma; s_gt; s_eq; s_where] end = true ->
+    brace_ctx c = false ->
+    Step c (pre ++ Tok s_colon :: post) (pre ++ post)
+(* explicit extern ABI *)
+| S_extern_abi pre post :
+    match post with
+    | [] => true
+    | y :: _ => negb (is_tok y s_crate) && negb (match y with Tok t => starts_str_lit t | Grp _ _ => false end)
+    end = true ->
+    Step c (pre ++ Tok s_extern :: post) (pre ++ Tok s_extern :: Tok s_abiC :: post)
+(* pub(in crate|self|super) and pub(in ::path) *)
+| S_vis_in pre b post :
+    vis_kw b = true ->
+    Step c (pre ++ Tok s_pub :: Grp DParen [Tok s_in; b] :: post) (pre ++ Tok s_pub :: Grp DParen [b] :: post)
+| S_vis_root pre x more post :
+    Step c (pre ++ Tok s_pub :: Grp DParen (Tok s_in :: Tok s_coloncolon :: x :: more) :: post)
+           (pre ++ Tok s_pub :: Grp DParen (Tok s_in :: x :: more) :: post)
+(* return; / break; / continue; as the last statement of a block *)
+| S_diverging_semi its :
+    c = CIn DBrace -> drops_tail_semi (its ++ [Tok s_semi]) = true ->
+    Step c (its ++ [Tok s_semi]) its
+(* optional trailing separator of a group (not the comma of a 1-tuple) *)
+| S_trailing_sep pre d its post :
+    negb (delim_eqb d DParen) || Nat.leb 2 (count_commas (its ++ [Tok s_comma])) || call_like (lasto pre) = true ->
+    Step c (pre ++ Grp d (its ++ [Tok s_comma]) :: post) (pre ++ Grp d its :: post)
+(* `,` before `>` in a generic list *)
+| S_generic_comma pre post :
+    Step c (pre ++ Tok s_comma :: Tok s_gt :: post) (pre ++ Tok s_gt :: post)
+(* the last `,` of a where clause *)
+| S_where_comma pre post :
+    (let (w, a) := wstate pre in w && Nat.eqb a 0) = true ->
+    match post with [] => true | y :: _ => ends_where y end = true ->
+    Step c (pre ++ Tok s_comma :: post) (pre ++ post)
+(* match arm body: block versus expression, and the comma after a block body *)
+| S_arm_block pre body post :
+    brace_ctx c = true -> single_expr_block (Grp DBrace body) = true ->
+    Step c (pre ++ Tok s_fatarrow :: Grp DBrace body :: post) (pre ++ Tok s_fatarrow :: body ++ post)
+| S_arm_comma pre b post :
+    brace_ctx c = true -> existsb is_fatarrow (pre ++ post) = true ->
+    Step c (pre ++ Grp DBrace b :: Tok s_comma :: post) (pre ++ Grp DBrace b :: post)
+(* closures: trailing comma of the parameter list, block versus expression body *)
+| S_closure_comma pre params post :
+    starts_expr (lasto pre) = true -> closure_params params = true ->
+    Step c (pre ++ Tok s_pipe :: params ++ Tok s_comma :: Tok s_pipe :: post)
+           (pre ++ Tok s_pipe :: params ++ Tok s_pipe :: post)
+| S_closure_block pre params body post :
+    starts_expr (lasto pre) = true -> closure_params params = true ->
+    single_expr_block (Grp DBrace body) = true ->
+    Step c (pre ++ Tok s_pipe :: params ++ Tok s_pipe :: Grp DBrace body :: post)
+           (pre ++ Tok s_pipe :: params ++ Tok s_pipe :: body ++ post)
+(* leading pipe of a match arm pattern *)
+| S_leading_pipe pre post :
+    brace_ctx c = true -> arm_start (rev pre) = true -> arrow_before_comma post = true ->
+    Step c (pre ++ Tok s_pipe :: post) (pre ++ post)
+(* redundant nested parentheses, parentheses around a literal *)
+| S_nested_parens pre its post :
+    call_like (lasto pre) = false ->
+    Step c (pre ++ Grp DParen [Grp DParen its] :: post) (pre ++ Grp DParen its :: post)
+| S_literal_parens pre t post :
+    call_like (lasto pre) = false -> starts_with_digit t = true ->
+    Step c (pre ++ Grp DParen [Tok t] :: post) (pre ++ Tok t :: post)
+(* the delimiter of a macro call, and of the body of a macro definition *)
+| S_macro_delim pre d d' its post :
+    macro_def_pos pre || macro_call_pos pre = true ->
+    Step c (pre ++ Grp d its :: post) (pre ++ Grp d' its :: post)
+(* empty generic lists and binders *)
+| S_empty_generics pre post :
+    Step c (pre ++ Tok s_lt :: Tok s_gt :: post) (pre ++ post)
+| S_empty_turbofish pre post :
+    Step c (pre ++ Tok s_coloncolon :: Tok s_lt :: Tok s_gt :: post) (pre ++ post)
+| S_empty_binder pre post :
+    Step c (pre ++ Tok s_for :: Tok s_lt :: Tok s_gt :: post) (pre ++ post)
+(* representation only: adjacent punctuation characters read as one token  ::  ->  => *)
+| S_glue pre a b post :
+    glue_pair a b = true ->
+    Step c (pre ++ Tok a :: Tok b :: post) (pre ++ Tok (a ++ b) :: post)
+(* macro_rules bodies: `;` between arms, doubled or trailing; delimiters of matcher and body *)
+| S_macro_sep pre post :
+    c = CMacro ->
+    match post with [] => true | y :: _ => is_tok y s_semi end = true ->
+    Step c (pre ++ Tok s_semi :: post) (pre ++ post)
+| S_macro_lead_sep post :
+    c = CMacro -> Step c (Tok s_semi :: post) post
+| S_macro_arm_delims pre d1 m d2 body d1' d2' post :
+    c = CMacro ->
+    match lasto pre with None => true | Some p => is_tok p s_semi end = true ->
+    match post with [] => true | y :: _ => is_tok y s_semi end = true ->
+    Step c (pre ++ Grp d1 m :: Tok s_fatarrow :: Grp d2 body :: post)
+           (pre ++ Grp d1' m :: Tok s_fatarrow :: Grp d2' body :: post).
+
+(* the reflexive-symmetric-transitive closure, closed under nesting: inside a group as code (never directly
+   inside a macro_rules body, whose matchers are compared verbatim), inside the body group of a macro_rules
+   definition with the macro steps, and inside the body of a macro arm as code in a block *)
+Inductive Equiv (c : sctx) : list item -> list item -> Prop :=
+| Eq_refl a : Equiv c a a
+| Eq_sym a b : Equiv c a b -> Equiv c b a
+| Eq_trans a b e : Equiv c a b -> Equiv c b e -> Equiv c a e
+| Eq_step a b : Step c a b -> Equiv c a b
+| Eq_nest pre d its its' post :
+    c <> CMacro -> macro_def_pos pre = false -> Equiv (CIn d) its its' ->
+    Equiv c (pre ++ Grp d its :: post) (pre ++ Grp d its' :: post)
+| Eq_macro_body pre d its its' post :
+    c <> CMacro -> macro_def_pos pre = true -> Equiv CMacro its its' ->
+    Equiv c (pre ++ Grp d its :: post) (pre ++ Grp d its' :: post)
+| Eq_macro_arm pre d1 m d2 body body' post :
+    c = CMacro ->
+    match lasto pre with None => true | Some p => is_tok p s_semi end = true ->
+    match post with [] => true | y :: _ => is_tok y s_semi end = true ->
+    Equiv (CIn DBrace) body body' ->
+    Equiv c (pre ++ Grp d1 m :: Tok s_fatarrow :: Grp d2 body :: post)
+            (pre ++ Grp d1 m :: Tok s_fatarrow :: Grp d2 body' :: post).
